@@ -32,6 +32,7 @@ func runC08(c *core.Ctx, r *core.Reporter) {
 	c08late(c, r)
 	c08register(c, r)
 	c08visible(c, r)
+	c08canon(c, r)
 }
 
 // c08late: Package.DefLambda copies the fields of the lambda it is given into the lambda already
@@ -381,6 +382,12 @@ func c08funcinfo(c *core.Ctx, r *core.Reporter) {
 			}
 			stack = append(stack, b.Succs...)
 		}
+		if escaped && fieldFixedByGuard(fn, f) {
+			// the in-place update is taken only when the entry's field already has the value a fresh entry gets
+			// (`fi.Pkg == obj`): nothing to assign on that path
+			r.Hold(rule, "slip.(Package).DefLambda|FuncInfo."+f, c.Pos(fn.Pos()), fmt.Sprintf("FuncInfo.%s is assigned where a fresh entry is built; the in-place update of an existing entry is control-dependent on the entry's %s being the receiver already", f, f))
+			continue
+		}
 		r.Decide(!escaped, rule, "slip.(Package).DefLambda|FuncInfo."+f, c.Pos(fn.Pos()), fmt.Sprintf("FuncInfo.%s is assigned on every path of a (re)definition: %v (a field updated only at creation keeps the first definition's value: the saved load form pairs a stale lambda list with the new body)", f, !escaped))
 	}
 }
@@ -525,4 +532,49 @@ func rootedAt(v ssa.Value, recv *ssa.Parameter, depth int) bool {
 		}
 	}
 	return false
+}
+
+// fieldFixedByGuard: every store into a field of an existing FuncInfo (one read from a map) in fn is
+// control-dependent on `entry.<field> == receiver`.
+func fieldFixedByGuard(fn *ssa.Function, field string) bool {
+	if len(fn.Params) == 0 {
+		return false
+	}
+	recv := fn.Params[0]
+	g := core.ComputeGuards(fn, nil)
+	found := false
+	for _, b := range fn.Blocks {
+		for _, in := range b.Instrs {
+			st, ok := in.(*ssa.Store)
+			if !ok {
+				continue
+			}
+			fa, ok := st.Addr.(*ssa.FieldAddr)
+			if !ok || !core.IsNamed(fa.X.Type(), core.SlipPath, "FuncInfo") || !fromMapLookup(fa.X, 0) {
+				continue
+			}
+			guarded := false
+			for f := range g.Facts(b) {
+				bo, ok := f.If.Cond.(*ssa.BinOp)
+				if !ok || bo.Op != token.EQL || !f.Branch {
+					continue
+				}
+				for _, pair := range [][2]ssa.Value{{bo.X, bo.Y}, {bo.Y, bo.X}} {
+					u, ok := pair[0].(*ssa.UnOp)
+					if !ok {
+						continue
+					}
+					gfa, ok := u.X.(*ssa.FieldAddr)
+					if ok && fieldName(gfa) == field && core.IsNamed(gfa.X.Type(), core.SlipPath, "FuncInfo") && pair[1] == ssa.Value(recv) {
+						guarded = true
+					}
+				}
+			}
+			if !guarded {
+				return false
+			}
+			found = true
+		}
+	}
+	return found
 }
